@@ -400,6 +400,82 @@ fn write_paths(st: &Mutex<Stats>) {
     }
 }
 
+/// (4) the migration instruction: every legacy curve of a menu (valid by the legacy rules, incl. values at the
+/// resolution of the new representation and beyond its range) is forged into a bank and converted by the real
+/// `migrate_curve`; whatever the instruction stores is an accepted configuration like any other — it must be a
+/// seven-point curve with all the properties above, and accrual must run on it at every utilisation.
+fn migration_sweep(st: &Mutex<Stats>) {
+    use crate::act::{self, Action};
+    use crate::ix;
+    use crate::svm::{process_tx, Tx};
+    use crate::world::{self, *};
+    let spec = |label: &str, mint: &str| BankSpec { label: label.into(), mint: MintSpec::spl(mint, 6), oracle: OracleSpec::pyth_usd(100_000_000), config: BankCfg::default() };
+    let (w, mut s0) = build_world(&WorldSpec::new("C18m", vec![spec("M0", "c18m0"), spec("M1", "c18m1")], &["u0", "u1", "seeder"]));
+    for a in [Action::Deposit { u: 2, b: 0, amt: 1_000_000_000, up_to_limit: None }, Action::Deposit { u: 2, b: 1, amt: 1_000_000_000, up_to_limit: None }, Action::Deposit { u: 0, b: 1, amt: 900_000_000, up_to_limit: None }, Action::Borrow { u: 0, b: 0, amt: 100_000_000 }] {
+        assert!(act::apply(&w, &mut s0, &a).committed, "{:?}", a);
+    }
+    let ulp = I80F48::from_bits(1);
+    let one = I80F48::ONE;
+    let opts: Vec<I80F48> = vec![ulp, I80F48::from_num(1e-10), I80F48::from_num(3e-10), I80F48::from_num(0.000001), I80F48::from_num(0.5), I80F48::from_num(0.8), I80F48::from_num(0.999999), one - I80F48::from_num(1e-10), one - ulp];
+    let plats: Vec<I80F48> = vec![ulp, I80F48::from_num(1e-9), I80F48::from_num(0.000001), I80F48::from_num(0.1), I80F48::from_num(0.5), I80F48::from_num(9.999999), I80F48::from_num(10), I80F48::from_num(50)];
+    let maxs: Vec<I80F48> = vec![I80F48::from_num(0.0000011), I80F48::from_num(0.5000001), I80F48::from_num(1), I80F48::from_num(3), I80F48::from_num(10), I80F48::from_num(10.000001), I80F48::from_num(51), I80F48::from_num(4000)];
+    let bk = w.banks[0].key;
+    for &opt in &opts {
+        for &plat in &plats {
+            for &max in &maxs {
+                let mut s = s0.clone();
+                world::edit_bank(&mut s, &bk, |b| {
+                    let ir = &mut b.config.interest_rate_config;
+                    ir.curve_type = INTEREST_CURVE_LEGACY;
+                    ir.optimal_utilization_rate = opt.into();
+                    ir.plateau_interest_rate = plat.into();
+                    ir.max_interest_rate = max.into();
+                    ir.zero_util_rate = 0;
+                    ir.hundred_util_rate = 0;
+                    ir.points = [RatePoint::default(); 5];
+                });
+                let legacy_ok = matches!(std::panic::catch_unwind(|| world::bank(&s, &bk).config.interest_rate_config.validate()), Ok(Ok(())));
+                let r = process_tx(&mut s, &Tx::one(ix::migrate_curve(bk), &[w.payer]));
+                let stored = world::bank(&s, &bk).config.interest_rate_config;
+                {
+                    let mut g = st.lock().unwrap();
+                    g.configs += 1;
+                    g.evaluations += 1;
+                    *g.classes.entry(format!("migration:{}:{}", if legacy_ok { "valid_legacy" } else { "invalid_legacy" }, if !r.ok() { "refused" } else if stored.curve_type == INTEREST_CURVE_SEVEN_POINT { "migrated" } else { "left_as_is" })).or_insert(0) += 1;
+                }
+                if !r.ok() {
+                    continue;
+                }
+                let name = format!("migrate_curve:legacy({opt},{plat},{max})");
+                if stored.curve_type != INTEREST_CURVE_SEVEN_POINT {
+                    // left as a legacy curve: the legacy sweep's subject; must at least be a valid legacy curve
+                    if !legacy_ok {
+                        st.lock().unwrap().found.push(Found { clause: "C18.defined".into(), sig: "stored_by:migrate_curve".into(), detail: format!("{name} succeeded and left an invalid legacy curve in place"), replay: json!({"model": "C18", "migration": [opt.to_string(), plat.to_string(), max.to_string()]}) });
+                    }
+                    continue;
+                }
+                let c = Cfg { zero: stored.zero_util_rate, hundred: stored.hundred_util_rate, points: stored.points };
+                check_cfg_as(&c, st, Some("migrate_curve"));
+                for util_pct in [0u64, 30, 79, 80, 81, 100] {
+                    let mut t = s.clone();
+                    world::edit_bank(&mut t, &bk, |b| {
+                        let assets = I80F48::from(b.total_asset_shares) * I80F48::from(b.asset_share_value);
+                        let want = assets * I80F48::from_num(util_pct) / I80F48::from_num(100);
+                        b.total_liability_shares = (want / I80F48::from(b.liability_share_value)).into();
+                    });
+                    t.advance(3_600);
+                    let ra = act::apply(&w, &mut t, &Action::Accrue { b: 0 });
+                    let mut gst = st.lock().unwrap();
+                    gst.evaluations += 1;
+                    if !ra.committed {
+                        gst.found.push(Found { clause: "C18.accrual_never_fails".into(), sig: "stored_by:migrate_curve".into(), detail: format!("after {name}, interest accrual at {util_pct} % utilisation fails ({:?})", ra.code), replay: json!({"model": "C18", "migration": [opt.to_string(), plat.to_string(), max.to_string()], "util_pct": util_pct}) });
+                    }
+                }
+            }
+        }
+    }
+}
+
 pub fn run(tier: Tier) -> Outcome {
     let st = Mutex::new(Stats::default());
     let pool = rayon::ThreadPoolBuilder::new().num_threads(16).stack_size(32 << 20).build().unwrap();
@@ -417,6 +493,7 @@ pub fn run(tier: Tier) -> Outcome {
     pool.install(|| shaped.par_iter().for_each(|c| check_cfg(c, &st)));
     legacy_sweep(&st);
     write_paths(&st);
+    migration_sweep(&st);
     let s = st.into_inner().unwrap();
     let mut o = Outcome { level: "exploration".into(), ..Default::default() };
     o.found = s.found;
